@@ -111,6 +111,9 @@ def _one(raw):
                     # run and locate the failure
                     pos = _positions(case, x)
                     groups = sorted(pos) if (style == 'freeform' or doc['kind'] == 'free') else [e.num + 1]
+                    if doc['kind'] == 'free':          # groups switched off by a skip word are not part of the doctest
+                        groups = [g for g in groups if not ((g == 1 and doc['lead'] > 0 and doc.get('hdr') in ('lead', 'both')) or
+                                                            (g == 2 and doc.get('hdr') in ('mid', 'both')))]
                     exp_line, exp_type = _expected_failure(doc, groups, pos, rot)
                     e.mode = 'native'
                     e.config['colored'] = False
@@ -160,6 +163,8 @@ def run(tier):
                 'documented nested function after a class / if block, in Collect.tla; every doctest of every module collected under three styles and run')
     collectlib.run_space(out, 'C08 top-level', 'C08_ItemsQ' if tier == 'quick' else 'C08_Items', 'C08_ModDocs', 2, _one, sig, limit=b['limit'],
                          fillers='C08_Fill', maxdepth=1)
+    # freeform layouts with a group switched off by a skip word: every one of them (they are rare in the sampled main space)
+    collectlib.run_space(out, 'C08 skip words', 'C08_HdrMain', 'C08_ModDocs', 1, _one, sig, limit=None, fillers='C08_Fill', maxdepth=1)
     collectlib.run_space(out, 'C08 nested', 'C08_NItems', 'C07_ModDocs', 2, _one, sig, limit=b['nlimit'], fillers='C08_NestFill', maxdepth=1)
     collectlib.deviation_must_fail(out, 'C08_NItems', 'C07_ModDocs', 2, 'OnlyLowerR', fillers='C08_NestFill')
     out.exhaustive = not out.extra.get('replay_sampled', False)
